@@ -132,6 +132,16 @@ impl Source {
             r is Ok <==> old(self).rest().len() >= old(buf)@.len(),
             r is Ok ==> final(self).pos == old(self).pos + old(buf)@.len() && final(buf)@ == old(self).rest().take(old(buf)@.len() as int),
     { unimplemented!() }
+    /// std::io::Read::read on a Cursor: copies as many bytes as are available (possibly fewer than requested, possibly none)
+    #[verifier::external_body]
+    pub fn read(&mut self, buf: &mut [u8]) -> (r: Result<usize, IoError>)
+        requires old(self).wf(),
+        ensures final(self).step(*old(self)), final(buf)@.len() == old(buf)@.len(), r is Ok,
+            r->Ok_0 == (if old(self).rest().len() < old(buf)@.len() { old(self).rest().len() } else { old(buf)@.len() }),
+            final(self).pos == old(self).pos + r->Ok_0,
+            forall|i: int| 0 <= i < r->Ok_0 ==> #[trigger] final(buf)@[i] == old(self).rest()[i],
+            forall|i: int| r->Ok_0 <= i < old(buf)@.len() ==> #[trigger] final(buf)@[i] == old(buf)@[i],
+    { unimplemented!() }
     #[verifier::external_body]
     pub fn read_u64_into<E>(&mut self, dst: &mut [u64]) -> (r: Result<(), IoError>)
         requires old(self).wf(),
@@ -179,6 +189,9 @@ impl vstd::std_specs::convert::FromSpecImpl<Utf8Error> for GdsError {
 }
 impl From<Utf8Error> for GdsError { fn from(e: Utf8Error) -> Self { Self::Boxed(Box::new(IoError)) } }
 
+/// model of u16::from_be_bytes (std; its signature cannot be named in an assume_specification): big-endian decode
+#[verifier::external_body]
+pub fn vp_u16_from_be(b: [u8; 2]) -> (r: u16) ensures r == de16(b@[0], b@[1]) { u16::from_be_bytes(b) }
 /// model of derive(FromPrimitive): from_u8(n) is the variant whose discriminant is n, if there is one
 pub trait FromPrimitive: Sized {
     spec fn num(&self) -> u8;
@@ -511,6 +524,7 @@ impl GdsRecordType {
 }
 impl GdsReader {
 //@ fn gds21/src/read.rs :: impl<R> GdsReader<R> :: fn read_record_header
+//@   sub R5? /u16::from_be_bytes\(/ => vp_u16_from_be(
 //@   ret r
 //@   spec
 //|     requires old(self).source.wf(),
